@@ -320,6 +320,23 @@ def loader_fields(P, f, pv, fv, ports):
     return st.get("fields")
 
 
+def _reachable_without(cfg, src, dst, avoid):
+    """is dst reachable from src without passing through block `avoid`?"""
+    seen = set()
+    st = [src]
+    while st:
+        b = st.pop()
+        if b == dst:
+            return True
+        if b in seen or b == avoid:
+            continue
+        seen.add(b)
+        for s in cfg.blocks[b].succs:
+            if s is not None:
+                st.append(s)
+    return False
+
+
 def run(P, tier="quick"):
     S = compute_fail_summaries(P)
     R22 = RuleResult("R22", "after the point where vnadata_cksave returns success, vnadata_save_common takes no failure edge "
@@ -399,7 +416,21 @@ def run(P, tier="quick"):
                                  "for argument reasons (%s): vnadata_cksave accepts what vnadata_save then refuses" % (c.callee, u), c.line))
         else:
             R22.ok("R22|%s|%s|%s" % (SAVE, f.name, anchor), set(PROPS))
-    # validation must not depend on the entry point identity (before the check point)
+    # direct argument refusals after the check-only return point
+    from ..failflow import REPORTERS
+    k = 0
+    for c in f.calls():
+        if c.callee in REPORTERS and len(c.args()) > REPORTERS[c.callee] and \
+                c.args()[REPORTERS[c.callee]].strip().refname == "VNAERR_USAGE":
+            pos = f.cfg.pos_of(c)
+            if pos is not None and pos[0] in after and pos[0] not in (f.cfg.reachable_from(f.cfg.entry) - after - {ck.id}) and \
+                    not _reachable_without(f.cfg, f.cfg.entry, pos[0], ck.succs[1]):
+                k += 1
+                R22.violated(Finding("R22", PROPS, SAVE, f.name, "after-cksave:usage-report#%d" % k,
+                                     "a VNAERR_USAGE refusal at line %d can only be reached after the point where vnadata_cksave has "
+                                     "already returned success: vnadata_cksave accepts what vnadata_save then refuses" % c.line, c.line))
+    if k == 0:
+        R22.ok("R22|%s|%s|no-usage-report-after-cksave" % (SAVE, f.name), set(PROPS))
     # ---- R29 -----------------------------------------------------------------
     fl = P.need_func("_vnadata_load_npd", LOAD)
     vpt = P.enums.get("vnadata_parameter_type", {})
